@@ -315,3 +315,96 @@ func HarnessC18Collect() {
 // resource.Default (process / host detection through system calls) is replaced
 // by the empty resource inside the engine
 func c18EmptyResource() *resource.Resource { return resource.Empty() }
+
+// ---- exponential (native) histograms: model of NewConstNativeHistogram (engine)
+type c18Native struct {
+	pos, neg    map[int]int64
+	count, zero uint64
+	sum         float64
+	schema      int32
+}
+
+var c18Natives = map[prometheus.Metric]*c18Native{}
+
+func c18NewConstNativeHistogram(desc *prometheus.Desc, count uint64, sum float64, positiveBuckets, negativeBuckets map[int]int64, zeroBucket uint64, schema int32, zeroThreshold float64, createdTimestamp time.Time, labelValues ...string) (prometheus.Metric, error) {
+	if !c18Arity(desc, labelValues) {
+		return nil, c18ErrArity{}
+	}
+	m := &c18Metric{desc: desc, vals: labelValues, fill: func(o *dto.Metric) {}}
+	c18Natives[m] = &c18Native{pos: positiveBuckets, neg: negativeBuckets, count: count, zero: zeroBucket, sum: sum, schema: schema}
+	return m, nil
+}
+
+func c18DecodeSpans(spans []*dto.BucketSpan, deltas []int64) map[int]int64 {
+	out := map[int]int64{}
+	idx, cur, di := 0, int64(0), 0
+	for si, s := range spans {
+		if si == 0 {
+			idx = int(s.GetOffset())
+		} else {
+			idx += int(s.GetOffset())
+		}
+		for j := 0; j < int(s.GetLength()) && di < len(deltas); j++ {
+			cur += deltas[di]
+			di++
+			if cur != 0 {
+				out[idx] = cur
+			}
+			idx++
+		}
+	}
+	return out
+}
+
+func c18ReadNative(m prometheus.Metric) *c18Native {
+	if vndSymbolic() {
+		return c18Natives[m]
+	}
+	var o dto.Metric
+	if m.Write(&o) != nil || o.Histogram == nil {
+		return nil
+	}
+	h := o.Histogram
+	return &c18Native{pos: c18DecodeSpans(h.PositiveSpan, h.PositiveDelta), neg: c18DecodeSpans(h.NegativeSpan, h.NegativeDelta),
+		count: h.GetSampleCount(), zero: h.GetZeroCount(), sum: h.GetSampleSum(), schema: h.GetSchema()}
+}
+
+// C18.native: an exponential histogram data point is exposed as a native
+// histogram whose bucket with index i+1 (both signs) holds the count of the
+// exponential bucket with index i, with the same zero count, count, sum and scale
+func HarnessC18Native() {
+	c18Scheme(false)
+	set := attribute.NewSet(attribute.String("a", "1"))
+	kv := keyVals{keys: []string{"otel_scope_name"}, vals: []string{"s"}}
+	ch := make(chan prometheus.Metric, 2)
+	md := metricdata.Metrics{Name: "m", Description: "d"}
+	t0 := time.Unix(1, 0)
+	po, no := int32(vndChoice(5)-2), int32(vndChoice(5)-2)
+	var pc, nc [2]uint64
+	for i := range pc {
+		pc[i], nc[i] = uint64(1+vndChoice(3)), uint64(1+vndChoice(3))
+	}
+	zero := uint64(vndChoice(3))
+	scale := int32(vndChoice(3) - 1)
+	cnt := pc[0] + pc[1] + nc[0] + nc[1] + zero
+	addExponentialHistogramMetric(ch, metricdata.ExponentialHistogram[float64]{DataPoints: []metricdata.ExponentialHistogramDataPoint[float64]{{
+		Attributes: set, StartTime: t0, Time: t0, Count: cnt, Sum: 7, Scale: scale, ZeroCount: zero,
+		PositiveBucket: metricdata.ExponentialBucket{Offset: po, Counts: pc[:]},
+		NegativeBucket: metricdata.ExponentialBucket{Offset: no, Counts: nc[:]}}}}, md, "m", kv)
+	vndAssert(len(ch) == 1, "one-series-per-data-point")
+	if len(ch) != 1 {
+		return
+	}
+	n := c18ReadNative(<-ch)
+	vndAssert(n != nil, "series-is-well-formed")
+	if n == nil {
+		return
+	}
+	vndReach("written")
+	vndAssert(n.count == cnt && n.zero == zero && n.sum == 7 && n.schema == scale, "native-histogram-count-zero-sum-scale-equal-the-aggregated-values")
+	vndAssert(len(n.pos) == 2 && len(n.neg) == 2, "native-histogram-has-one-bucket-per-exponential-bucket")
+	for i := 0; i < 2; i++ {
+		vndAssert(n.pos[int(po)+i+1] == int64(pc[i]), "native-bucket-index-is-exponential-index-plus-one")
+		vndAssert(n.neg[int(no)+i+1] == int64(nc[i]), "native-bucket-index-is-exponential-index-plus-one")
+	}
+}
